@@ -616,8 +616,11 @@ func (w *WAL) maybeSync() error {
 	}
 
 	if needSync {
-		// Use syncLocked since we're already holding the mutex
-		if err := w.syncLocked(); err != nil {
+		// We're already holding the mutex. The entry has been accepted and
+		// written, so complete it even if the WAL has been marked as rotating
+		// in the meantime: refusing the sync now would report an error for an
+		// entry that is in the log and will be recovered
+		if err := w.syncFile(); err != nil {
 			return err
 		}
 	}
@@ -634,6 +637,11 @@ func (w *WAL) syncLocked() error {
 		return ErrWALRotating
 	}
 
+	return w.syncFile()
+}
+
+// syncFile flushes the buffer and syncs the file; the mutex must be held
+func (w *WAL) syncFile() error {
 	if err := w.writer.Flush(); err != nil {
 		return fmt.Errorf("failed to flush WAL buffer: %w", err)
 	}
